@@ -21,8 +21,9 @@ THEOREMS = [
     "GoaktVerif.C33.finish_reversed_refuted",
     "GoaktVerif.C33.lifeInv_step",
     "GoaktVerif.C33.C33_life_holds",
-    "GoaktVerif.C33.C33_announce_refuted",
-    "GoaktVerif.C33.C33_announce_partial",
+    "GoaktVerif.C33.announce_step",
+    "GoaktVerif.C33.C33_announce_partial_holds",
+    "GoaktVerif.C33.C33_announce_empty_set_witness",
     "GoaktVerif.C33.C33_holds",
 ]
 # the C32 plan facts are imported from Lemmas/C32*.lean (no generated file involved)
@@ -45,7 +46,7 @@ FACTS = [
 TIMEOUT = 900
 ORACLE_NEEDS_JUDGE = True
 MANIFEST = {
-    "level_text": "Kernel-checked theorems. Item level (C33_accounting_holds, relocate_items, relocateShare_items): for EVERY map iteration order, survivor set, role sets, loads and EVERY environment (which item fails on which node, which batch is rejected by which peer, which lazy release fails) the worker's run produces exactly one record per actor of the snapshot and per relocatable grain - handled by exactly one node, or failed (= listed in the event) - and at most one RelocationFailed event, published exactly when something failed; abort accounting likewise (C33_abort_accounting_holds). Job level (C33_once_holds, inductive invariant inv_step over 13 conjuncts): a NodeLeft while a job is registered leaves the state unchanged; over EVERY history of NodeLeft (duplicates included), order deliveries, spawn failures, completions, worker deaths and Terminated deliveries each departure's relocation ends at most once and gets at most one RelocationFailed event, a queued order or waiting worker always owns the registered job of its address, never two per address, a stale Terminated never aborts a newer job; with the code's order of finish (snapshot deleted, then job released) no duplicate NodeLeft before, between or after the two calls starts a relocation (C33_finish_window_holds; the reverse order is refuted); over every sequence of NodeLefts on either path, completed and aborted runs, relocations started <= aborted + 1 (C33_life_holds: once per departure incl. abort and re-request). Open finding C33-F1 (C33_announce_refuted/partial): on the crash-recovery path a duplicate NodeLeft publishes a RelocationStarted event although nothing is started. Tied to the code by differential runs of the REAL relocationWorker.relocate / relocateShare, relocator.Receive (Terminated, Rebalance with failing spawn) beginRelocation/endRelocation/relocationJob, handleNodeLeftEvent (duplicates injected from inside DeletePeerState) against scripted doubles, and of a started system with the real relocator actor, startWorker, worker actor and gateCrashRecovery (lv), plus call-order facts re-extracted from the source, with the spec oracle evaluated on the observed trace.",
+    "level_text": "Kernel-checked theorems. Item level (C33_accounting_holds, relocate_items, relocateShare_items): for EVERY map iteration order, survivor set, role sets, loads and EVERY environment (which item fails on which node, which batch is rejected by which peer, which lazy release fails) the worker's run produces exactly one record per actor of the snapshot and per relocatable grain - handled by exactly one node, or failed (= listed in the event) - and at most one RelocationFailed event, published exactly when something failed; abort accounting likewise (C33_abort_accounting_holds). Job level (C33_once_holds, inductive invariant inv_step over 13 conjuncts): a NodeLeft while a job is registered leaves the state unchanged; over EVERY history of NodeLeft (duplicates included), order deliveries, spawn failures, completions, worker deaths and Terminated deliveries each departure's relocation ends at most once and gets at most one RelocationFailed event, a queued order or waiting worker always owns the registered job of its address, never two per address, a stale Terminated never aborts a newer job; with the code's order of finish (snapshot deleted, then job released) no duplicate NodeLeft before, between or after the two calls starts a relocation (C33_finish_window_holds; the reverse order is refuted); over every sequence of NodeLefts on either path, completed and aborted runs, relocations started <= aborted + 1 (C33_life_holds: once per departure incl. abort and re-request). Since fix 51adf01 (former finding C33-F1) a NodeLeft while a relocation is in flight announces and dispatches nothing on either path, and every RelocationStarted is the announcement of a started relocation or a crash-path announcement of an empty derived set (C33_announce_partial_holds; the empty-set announcement is intentional and is the only reason the plain 'announced = started' statement fails, C33_announce_empty_set_witness). Tied to the code by differential runs of the REAL relocationWorker.relocate / relocateShare, relocator.Receive (Terminated, Rebalance with failing spawn) beginRelocation/endRelocation/relocationJob, handleNodeLeftEvent (duplicates injected from inside DeletePeerState) against scripted doubles, and of a started system with the real relocator actor, startWorker, worker actor and gateCrashRecovery (lv), plus call-order facts re-extracted from the source, with the spec oracle evaluated on the observed trace.",
     "level_note": "PARTIAL. Parameters, not verified: real cluster membership (cluster.Peers), the transport (a batch whose RPC fails is modelled as not applied by the target; the registry gate that protects against a half-applied batch is outside the model), the peer-side handler (scripted: it reports exactly the failed items), the per-item respawn on the leader (scripted outcome; the real recreateActorFromWire gate is tied in C32). in the job scripts startWorker's successful spawn is replayed by the harness; the lv op runs it for real (started system, real spawnRelocator / relocator actor / startWorker / worker actor, both NodeLeft paths incl. gateCrashRecovery) but only observes run counts and events; worker death is modelled as happening before any bookkeeping. Snapshot identity = pointer identity, fresh per departure (true for both shipped stores). The full relocate is map-ordered: exact comparison only on order-independent families (det: every actor pinned to one target; f1: at most one peer down and node-independent item failures), otherwise only the oracle judges the trace.",
     "technique": "Lean 4 proof (permutation accounting composed from the C32 plan theorems; inductive invariant of a transition system) plus model/implementation differential on the real worker with fake peers",
 }
@@ -371,11 +372,4 @@ def oracle(case, impl, judge):
 
 
 def classify(case, impl, why):
-    # C33-F1: duplicate (or late) NodeLeft on the crash-recovery path announces a relocation that is
-    # not started: lv case whose crash path sees a duplicate, and ONLY the RelocationStarted count is off
-    f = case.split()
-    if f[0] == "lv" and len(f) == 4 and why and "RelocationStarted events for" in why:
-        k, a = int(f[2]), int(f[3])
-        if k > 0 and (f[1] == "c" or a > 0):
-            return "C33-F1"
-    return None
+    return None  # no open finding (C33-F1 fixed by 51adf01)
